@@ -214,6 +214,14 @@ Spacing == \A i, j \in 1..Len(fires) : i # j => Abs(fires[i] - fires[j]) >= EffP
 
 WindowRespected == \A i \in 1..Len(fires) : InWindow(fires[i])
 
+(* why Spacing survives an overtaken hit and a clock set back: with a period the recorded last fire only moves      *)
+(* forward in the times the hits carry, so it is the latest of all reserved fires and one comparison with it is a   *)
+(* comparison with every earlier fire                                                                               *)
+LastIsLatest == (Atomic /\ ~ReinstallResets /\ EffPeriod > 0) => \A i \in 1..Len(fires) : fires[i] <= last
+
+LastMovesForward ==
+    [][(Atomic /\ ~ReinstallResets /\ EffPeriod > 0) => last' >= last]_vars
+
 (* the stats never run ahead of / behind the collections once everything is quiet *)
 Quiet == \A t \in Threads : pc[t] = "idle"
 StatsAgree == (Quiet /\ ~ReinstallResets) => (count = Len(fires) /\ (count > 0 => \E i \in 1..Len(fires) : fires[i] = last))
